@@ -110,6 +110,9 @@ func runC12(c *Ctx) {
 	if c.Thorough() {
 		rounds = 4
 	}
+	// the inproc rendezvous machine: refused Listens and Dials leave the table as it was and succeed when retried after
+	// the cause has gone (Props.C12.inproc_failed_calls_change_nothing, inproc_listen_succeeds_once_the_owner_closed)
+	runInprocRendezvous(c)
 	for round := 0; round < rounds; round++ {
 		for _, scheme := range []string{"tcp", "ipc", "inproc", "ws", "tls+tcp", "wss"} {
 			c12ListenErrors(c, scheme)
